@@ -29,11 +29,24 @@ enum Verdict { Ok(usize /*functions checked*/, usize /*paths*/), Skip(String), F
 
 fn imm(d: &DerefOrImmediate) -> Option<i64> { match d { DerefOrImmediate::Immediate(v) => v.value.to_i64(), _ => None } }
 
+fn is_fail(a: &cairo_lang_casm::instructions::AssertEqInstruction) -> bool {
+    use cairo_lang_casm::operand::{BinOpOperand, CellRef, Operation, Register};
+    let fp1 = CellRef { register: Register::FP, offset: -1 };
+    match &a.b {
+        ResOperand::BinOp(BinOpOperand { op: Operation::Add, a: x, b: DerefOrImmediate::Immediate(v) }) => a.a == fp1 && *x == fp1 && v.value.to_i64() == Some(1),
+        _ => false,
+    }
+}
+
 fn analyze(src: &str) -> Verdict {
     let program = match ProgramParser::new().parse(src) { Ok(p) => p, Err(_) => return Verdict::Skip("does not parse".into()) };
     let info = match ProgramRegistryInfo::new(&program) { Ok(i) => i, Err(_) => return Verdict::Skip("registry error".into()) };
-    let md = match calc_metadata(&program, &info, Default::default()) { Ok(m) => m, Err(_) => return Verdict::Skip("metadata error".into()) };
-    let casm = match compile(&program, &info, &md, SierraToCasmConfig { gas_usage_check: true, max_bytecode_size: usize::MAX }) { Ok(c) => c, Err(_) => return Verdict::Skip("compile error".into()) };
+    // with gas accounting when the program supports it, otherwise ap-change metadata only
+    let (md, gas) = match calc_metadata(&program, &info, Default::default()) {
+        Ok(m) => (m, true),
+        Err(_) => match crate::metadata::calc_metadata_ap_change_only(&program, &info) { Ok(m) => (m, false), Err(_) => return Verdict::Skip("metadata error".into()) },
+    };
+    let casm = match compile(&program, &info, &md, SierraToCasmConfig { gas_usage_check: gas, max_bytecode_size: usize::MAX }) { Ok(c) => c, Err(_) => return Verdict::Skip("compile error".into()) };
     // instruction offsets
     let mut offs = vec![];
     let mut at: HashMap<usize, usize> = HashMap::new();
@@ -41,17 +54,48 @@ fn analyze(src: &str) -> Verdict {
     for (i, ins) in casm.instructions.iter().enumerate() { offs.push(o); at.insert(o, i); o += ins.body.op_size(); }
     let stmts = &casm.debug_info.sierra_statement_info;
     let entry_of = |f: &cairo_lang_sierra::program::Function| stmts[f.entry_point.0].start_offset;
-    let declared: HashMap<usize, Option<usize>> = program.funcs.iter().map(|f| (entry_of(f), md.ap_change_info.function_ap_change.get(&f.id).copied())).collect();
+    // entry offset -> declared change; an offset shared by several functions (a function over an
+    // uninhabited type emits no code and "starts" where the next one does) is ambiguous: None
+    let mut declared: HashMap<usize, Option<usize>> = HashMap::new();
+    let mut shared: HashSet<usize> = HashSet::new();
+    for f in &program.funcs {
+        let e = entry_of(f);
+        if declared.insert(e, md.ap_change_info.function_ap_change.get(&f.id).copied()).is_some() { shared.insert(e); }
+    }
+    for e in &shared { declared.insert(*e, None); }
     let stmt_end = |off: usize| stmts.iter().find(|s| s.start_offset <= off && off < s.end_offset).map(|s| s.end_offset);
+    // Sierra-level flow facts the CASM alone does not show: a statement without a fallthrough
+    // branch never continues into the code that physically follows it (e.g. `enum_match` on an
+    // empty enum emits no instruction at all).
+    use cairo_lang_sierra::program::{BranchTarget, Statement};
+    let falls_through = |i: usize| match &program.statements[i] {
+        Statement::Return(_) => false,
+        Statement::Invocation(inv) => inv.branches.iter().any(|b| match b.target { BranchTarget::Fallthrough => true, BranchTarget::Statement(t) => t.0 == i + 1 }),
+    };
+    // offsets holding a zero-size statement that does not fall through: which statement a jump to
+    // such an offset targets cannot be told from the CASM, so functions reaching one are skipped
+    let blockers: HashSet<usize> = stmts.iter().enumerate().filter(|(i, s)| s.start_offset == s.end_offset && !falls_through(*i)).map(|(_, s)| s.start_offset).collect();
+    let stmt_of = |off: usize| stmts.iter().position(|s| s.start_offset <= off && off < s.end_offset);
     let (mut nfun, mut npaths) = (0, 0);
     for f in &program.funcs {
         let Some(k) = md.ap_change_info.function_ap_change.get(&f.id).copied() else { continue };
-        let mut stack = vec![(entry_of(f), 0i64)];
+        if shared.contains(&entry_of(f)) { continue; }
+        let mut stack = vec![(entry_of(f), 0i64, (usize::MAX, 0i64))];
         let mut seen: HashSet<(usize, i64)> = HashSet::new();
+        let mut pred: HashMap<(usize, i64), (usize, i64)> = HashMap::new();
         let mut undecided = false;
         let mut steps = 0;
-        while let Some((pc, ap)) = stack.pop() {
+        while let Some((pc, ap, from)) = stack.pop().map(|(a, b, c): (usize, i64, (usize, i64))| (a, b, c)) {
             if !seen.insert((pc, ap)) { continue; }
+            pred.insert((pc, ap), from);
+            if blockers.contains(&pc) { undecided = true; break; }
+            // sequential flow out of a statement that has no fallthrough branch is not a path
+            if from.0 != usize::MAX && from.0 < pc {
+                if let (Some(a), Some(&fi)) = (stmt_of(from.0), at.get(&from.0)) {
+                    let seq = from.0 + casm.instructions[fi].body.op_size() == pc;
+                    if seq && stmts[a].end_offset == pc && !falls_through(a) { continue; }
+                }
+            }
             steps += 1;
             if steps > 400_000 { undecided = true; break; }
             let Some(&i) = at.get(&pc) else { return Verdict::Fail(format!("function {}: path reaches offset {pc}, which is not an instruction boundary", f.id)) };
@@ -61,31 +105,52 @@ fn analyze(src: &str) -> Verdict {
             match &ins.body {
                 InstructionBody::Ret(_) => {
                     npaths += 1;
-                    if ap != k as i64 { return Verdict::Fail(format!("function {}: declared ap change {k}, but a path of the emitted code reaches `ret` at offset {pc} after moving ap by {ap}", f.id)); }
+                    if ap != k as i64 {
+                        let mut path = vec![];
+                        let mut cur = (pc, ap);
+                        while cur.0 != usize::MAX && path.len() < 60 { {
+                                let si = stmts.iter().position(|s| s.start_offset <= cur.0 && cur.0 < s.end_offset);
+                                let zero: Vec<String> = stmts.iter().enumerate().filter(|(_, s)| s.start_offset == cur.0 && s.end_offset == cur.0).map(|(i, _)| format!("#{i} {}", program.statements[i]).chars().take(60).collect()).collect();
+                                let st = format!("{} zero-size-here={:?}", si.map(|i| format!("#{i} {}", program.statements[i])).unwrap_or_default().chars().take(80).collect::<String>(), zero);
+                                path.push(format!("{}:{} `{}` <{}>", cur.0, cur.1, casm.instructions[at[&cur.0]].body, st.chars().take(900).collect::<String>()));
+                            } cur = pred[&cur]; }
+                        path.reverse();
+                        return Verdict::Fail(format!("function {}: declared ap change {k}, but a path of the emitted code reaches `ret` at offset {pc} after moving ap by {ap}; path offset:ap = {}", f.id, path.join(" ")));
+                    }
                 }
-                InstructionBody::AssertEq(_) | InstructionBody::QM31AssertEq(_) | InstructionBody::Blake2sCompress(_) => stack.push((pc + size, ap1)),
+                // `[fp - 1] = [fp - 1] + 1` is the builder's `fail`: an assertion no memory can satisfy,
+                // so execution never continues past it
+                InstructionBody::AssertEq(a) if is_fail(a) => {}
+                InstructionBody::AssertEq(_) | InstructionBody::QM31AssertEq(_) | InstructionBody::Blake2sCompress(_) => stack.push((pc + size, ap1, (pc, ap))),
                 InstructionBody::AddAp(a) => match &a.operand {
-                    ResOperand::Immediate(v) => match v.value.to_i64() { Some(n) => stack.push((pc + size, ap + n)), None => { undecided = true; break; } },
+                    ResOperand::Immediate(v) => match v.value.to_i64() { Some(n) => stack.push((pc + size, ap + n, (pc, ap))), None => { undecided = true; break; } },
                     _ => { undecided = true; break; }
                 },
                 InstructionBody::Jump(j) => match (j.relative, imm(&j.target)) {
-                    (true, Some(d)) => stack.push(((pc as i64 + d) as usize, ap1)),
+                    (true, Some(d)) => stack.push(((pc as i64 + d) as usize, ap1, (pc, ap))),
                     (true, None) => {
                         // jump table: targets are the remaining instructions of this Sierra statement and its end
                         let Some(end) = stmt_end(pc) else { undecided = true; break };
                         let mut t = pc + size;
-                        while t < end { stack.push((t, ap1)); t += casm.instructions[at[&t]].body.op_size(); }
-                        stack.push((end, ap1));
+                        while t < end { stack.push((t, ap1, (pc, ap))); t += casm.instructions[at[&t]].body.op_size(); }
+                        stack.push((end, ap1, (pc, ap)));
                     }
                     _ => { undecided = true; break; }
                 },
                 InstructionBody::Jnz(j) => match imm(&j.jump_offset) {
-                    Some(d) => { stack.push((pc + size, ap1)); stack.push(((pc as i64 + d) as usize, ap1)); }
+                    Some(d) => { stack.push((pc + size, ap1, (pc, ap))); stack.push(((pc as i64 + d) as usize, ap1, (pc, ap))); }
                     None => { undecided = true; break; }
                 },
                 InstructionBody::Call(c) => match (c.relative, imm(&c.target)) {
                     (true, Some(d)) => match declared.get(&((pc as i64 + d) as usize)) {
-                        Some(Some(c)) => stack.push((pc + size, ap + *c as i64 + 2)),
+                        Some(Some(c)) => {
+                            if std::env::var("VERIF_DEBUG").is_ok() {
+                                let t = (pc as i64 + d) as usize;
+                                let cands: Vec<String> = program.funcs.iter().filter(|g| entry_of(g) == t).map(|g| format!("{}={:?}", g.id, md.ap_change_info.function_ap_change.get(&g.id))).collect();
+                                eprintln!("CALL at {pc} -> {t}: {:?}", cands);
+                            }
+                            stack.push((pc + size, ap + *c as i64 + 2, (pc, ap)))
+                        }
                         _ => { undecided = true; break; }
                     },
                     _ => { undecided = true; break; }
@@ -103,7 +168,7 @@ fn corpus() -> Vec<std::path::PathBuf> {
     let mut root = std::path::PathBuf::from(env!("CARGO_MANIFEST_DIR"));
     root.pop();
     root.pop();
-    for d in ["tests/test_data", "examples", "crates/cairo-lang-sierra-to-casm/src/test_data", "crates/cairo-lang-sierra/examples"] {
+    for d in ["tests/test_data", "examples", "crates/cairo-lang-sierra-to-casm/src/test_data", "crates/cairo-lang-sierra/examples", "crates/cairo-lang-starknet/test_data"] {
         if let Ok(rd) = std::fs::read_dir(root.join(d)) { for e in rd.filter_map(|e| e.ok()) { out.push(e.path()); } }
     }
     out.retain(|p| p.extension().map(|x| x == "sierra").unwrap_or(false));
@@ -122,7 +187,7 @@ fn __verif_n_c17_casm_paths() {
         let h = std::thread::Builder::new().stack_size(128 << 20).spawn(move || catch_unwind(AssertUnwindSafe(|| analyze(&src)))).unwrap();
         match h.join() {
             Ok(Ok(Verdict::Ok(n, p))) => { ok_files += 1; funs += n; paths += p; }
-            Ok(Ok(Verdict::Skip(_))) => skipped += 1,
+            Ok(Ok(Verdict::Skip(w))) => { skipped += 1; println!("VERIF-N id=N/n_c17_casm_paths/skip status=skip file=\"{}\" why=\"{w}\"", f.display()); }
             Ok(Ok(Verdict::Fail(w))) => fails.push((f.display().to_string(), w)),
             _ => skipped += 1,
         }
